@@ -225,6 +225,43 @@ func TestC09(t *testing.T) {
 			r.Violate(rep.Sig{"kind": out.Kind, "shape": "identical-content-files"}, "two files with identical content: "+out.Msg, c)
 		}
 	}
+	// two files that differ MINIMALLY are two modules: a blank more inside a string literal, a tab for a blank, the case of a
+	// letter, another comment, another indentation, a blank line more at the end (whatever a file's identity is derived from, it
+	// must tell these apart; each module runs its own top-level code and keeps its own counter)
+	{
+		lib := func(lit, comment, indent, tail string) string {
+			return "counter := 0\nfunc Tag() string {\n" + indent + "return \"" + lit + "\"\n}\n" + comment + "print(\"init\", Tag())\nfunc Next() int {\n" + indent + "counter = counter + 1\n" + indent + "return counter\n}\n" + tail
+		}
+		type variant struct{ lit, comment, indent, tail string }
+		pairs := []struct {
+			name string
+			a, b variant
+		}{
+			{"blank-run-in-literal", variant{"a b", "", "\t", ""}, variant{"a  b", "", "\t", ""}},
+			{"tab-for-blank-in-literal", variant{"a b", "", "\t", ""}, variant{"a\tb", "", "\t", ""}},
+			{"trailing-blank-in-literal", variant{"ab", "", "\t", ""}, variant{"ab ", "", "\t", ""}},
+			{"letter-case-in-literal", variant{"ab", "", "\t", ""}, variant{"aB", "", "\t", ""}},
+			{"comment-text", variant{"ab", "// x\n", "\t", ""}, variant{"ab", "// y\n", "\t", ""}},
+			{"comment-presence", variant{"ab", "", "\t", ""}, variant{"ab", "// note\n", "\t", ""}},
+			{"indentation", variant{"ab", "", "\t", ""}, variant{"ab", "", "  ", ""}},
+			{"blank-line-at-end", variant{"ab", "", "\t", ""}, variant{"ab", "", "\t", "\n"}},
+		}
+		for i, pr := range pairs {
+			if !e.Mine(i*2 + 1) {
+				continue
+			}
+			fa, fb := lib(pr.a.lit, pr.a.comment, pr.a.indent, pr.a.tail), lib(pr.b.lit, pr.b.comment, pr.b.indent, pr.b.tail)
+			c := execCase{Kind: "bash-run", Property: "C09", Main: "main.tsh", ExpectStatus: 0,
+				ExpectStdout: "init " + pr.a.lit + "\ninit " + pr.b.lit + "\n" + pr.a.lit + " " + pr.b.lit + "\n1 1 2\n",
+				Files: map[string]string{"main.tsh": "import (\n\ta \"a.tsh\"\n\tb \"sub/b.tsh\"\n)\nprint(a.Tag(), b.Tag())\nprint(a.Next(), b.Next(), a.Next())\n", "a.tsh": fa, "sub/b.tsh": fb}}
+			r.Eval()
+			r.Class("near-identical-files")
+			r.NonTrivial("near-identical-files:"+pr.name, nil)
+			if out := runExecCase(c); !out.OK {
+				r.Violate(rep.Sig{"kind": out.Kind, "shape": "near-identical-files", "difference": pr.name}, "two imported files that differ only in "+pr.name+": "+out.Msg, c)
+			}
+		}
+	}
 	// two DIFFERENT files whose content hashes share the first 7 hex digits (f1a2e1d; found by a birthday search over nonce
 	// comments) are two modules as well (known finding C09-hash-prefix-collision: same root, identity = 28-bit hash prefix)
 	if e.Shard == 0 {
